@@ -171,7 +171,15 @@ class VSet:
         self.abstract = False  # abstract: only an element predicate is known
 
 
+NONE_SENTINEL = z3.Int("py_None_sentinel")
+
+
 def _elem_wrap(kind, term):
+    if kind == "optint":
+        # Optional[int]: None is a sentinel integer that is assumed distinct from every int stored
+        if CTX.branch(term == NONE_SENTINEL):
+            return None
+        return mk_int(term)
     if kind == "int":
         return mk_int(term)
     if kind == "ref":
@@ -189,6 +197,14 @@ def _zb(b):
 
 
 def _elem_unwrap(kind, v):
+    if kind == "optint":
+        if v is None:
+            return NONE_SENTINEL
+        z = _zint(v)
+        if z is None:
+            raise OutOfSubset("non-int stored in an Optional[int] list")
+        CTX.assume(z != NONE_SENTINEL)
+        return z
     if kind == "int":
         z = _zint(v)
         if z is None:
@@ -207,7 +223,10 @@ def _elem_unwrap(kind, v):
         z = _zint(v)
         if z is not None:
             return z
-        raise OutOfSubset("cannot store %r in a ref list" % (v,))
+        k = id(v)
+        if k not in _obj_ids:
+            _obj_ids[k] = (len(_obj_ids), v)
+        return z3.IntVal(-1000000 - _obj_ids[k][0])
     raise OutOfSubset("list kind %s" % kind)
 
 
